@@ -23,7 +23,7 @@ ASSUMPTIONS = ["members are individuals (no nested groups), conditions are () an
                "histories stay in the conflict-free fragment where the StrongRemove filter is empty (decided by the model per case; steps after leaving it are not judged)",
                "operations arrive after their dependencies (dependencies are heads of earlier replica states)"]
 TRUSTED = ["modelled not verified: StrongRemove resolver (outside the conflict-free fragment), nested groups, petgraph, HashMap/HashSet as lists"]
-RULE = ("3 re-create cases (open finding); random histories over 1-2 groups, 4-5 members plus 2 never-added outsiders: create, then 6-14 (quick) / 10-30 (thorough) operations "
+RULE = ("3 re-create cases (open finding); 150 (quick) / all 294 (thorough) systematic cases; 350 (quick) / 1200 (thorough) random histories over 1-2 groups, 4-5 members plus 2 never-added outsiders: create, then 6-14 (quick) / 10-30 (thorough) operations "
         "add/remove/promote/demote/re-submit by managers, lower members, removed members and outsiders; dependencies = current heads or the heads "
         "after an earlier operation (concurrency); plus a systematic family: every kind of unauthorised author x every action on a fixed group. "
         "non-trivial = at least one accepted non-create operation and at least one rejected operation")
@@ -116,7 +116,7 @@ def gen(tier, rng):
         nrand = 350
     else:
         yield from sysm
-        nrand = 3000
+        nrand = 1200
     for _ in range(nrand):
         yield random_history(rng, tier)
 
